@@ -816,7 +816,7 @@ void GridGlobal::setAnisotropicRefinement(TypeDepth type, int min_growth, int ou
     int level = 0;
     do{
         updateGrid(++level, type, weights, level_limits);
-    }while(getNumNeeded() < min_growth);
+    }while(getNumNeeded() < min_growth and not MultiIndexManipulations::isLimitSaturated(tensors, updated_tensors, level_limits));
 }
 
 void GridGlobal::setSurplusRefinement(double tolerance, int output, const std::vector<int> &level_limits){
